@@ -208,6 +208,9 @@ TLoad ==
                         <<Ev.rcount = Len(stored), "C05:Count() of the restored snapshot differs from the stored snapshot">> >>)
        ELSE /\ UNCHANGED <<vars, drift, stored, dx>>
             /\ bad' = Note(bad, "C05:LoadFromDisk failed on an undamaged backup", "BAD")
+(* a garbage list announced by the collector was not processed by any (idle) collection worker within 30 s *)
+TStuck == /\ l <= N /\ Ev.e = "Stuck" /\ l' = l + 1 /\ UNCHANGED <<vars, drift, stored, dx>>
+          /\ bad' = Note(bad, "C06:a garbage list released by the collector was never taken by a collection worker (stranded garbage): " \o Ev.msg, "BAD")
 (* the instance has been closed (all snapshots and iterators given back): the allocator's verdict *)
 TEnd == /\ l <= N /\ Ev.e = "End" /\ l' = l + 1 /\ UNCHANGED <<vars, drift, stored, dx>>
         /\ bad' = Note(bad, IF Len(Ev.allocerrs) > 0 THEN "C04:the allocator reports: " \o Ev.allocerrs[1]
@@ -222,7 +225,7 @@ TDone == l = N + 1 /\ UNCHANGED tvars
 
 TNext == \/ TReset \/ TPut \/ TDelete \/ TGetNode \/ TNewSnapshot \/ TOpen \/ TCloseSnap \/ TGC \/ TGCUnlink
          \/ TIterNew \/ TIterSetRate \/ TIterSeek \/ TIterSeekFirst \/ TIterNext \/ TIterRefresh \/ TIterClose
-         \/ TVisit \/ TStoreBegin \/ TStore \/ TLoad \/ TEnd \/ TFault \/ TPanic \/ TDone
+         \/ TVisit \/ TStoreBegin \/ TStore \/ TLoad \/ TEnd \/ TStuck \/ TFault \/ TPanic \/ TDone
 TSpec == TInit /\ [][TNext]_tvars
 Good == bad = ""
 =============================================================================
